@@ -1089,6 +1089,8 @@ class ContentElement(TTMLElement):
       imsc_class = RbElement
     elif isinstance(model_element, model.Rt):
       imsc_class = RtElement
+    elif isinstance(model_element, model.Rp):
+      imsc_class = RpElement
     elif isinstance(model_element, model.Rbc):
       imsc_class = RbcElement
     elif isinstance(model_element, model.Rtc):
